@@ -125,6 +125,7 @@ def run_task(task):
                 "obligations": c.obligations,
                 "stats": c.stats.as_dict(),
                 "undecided": c.undecided,
+                "notes": c.notes[:5],
                 "functions": sorted(c.functions),
                 "n_records": len(c.records),
                 "validation": None,
